@@ -8,25 +8,38 @@ From Coq Require Import List NArith Bool Arith Lia Permutation.
 From Arc Require Import Compaction.Model Compaction.Proofs.
 Import ListNotations.
 
-(* GUARDED positive theorem.  For EVERY partition content s0 (any number of readable files,
-   no manifest), every tier/batch configuration, every history h of process lifetimes - each
-   runs one compaction cycle (manifest recovery, candidate filtering, batch splitting, adaptive
-   halve-and-retry) in which any job may run to completion, fail permanently, be killed
-   BEFORE ITS UPLOAD STARTS with the parent retrying on halves (OKill k, k <= 1), or take the
-   whole process down after ANY number k of its durable micro-steps (OCrash k: manifest write,
-   torn upload, complete upload, each input delete, manifest delete) - one later undisturbed
-   cycle leaves exactly the rows of s0 modulo dedup, no manifest, and only readable files. *)
+(* FULL-STRENGTH theorem (the code since 5306c6c: compactFilesAdaptively skips the retry of a
+   batch that a manifest tracks).  For EVERY partition content s0 (any number of readable
+   files, no manifest), every tier/batch configuration and every history h of process
+   lifetimes - each runs one compaction cycle (manifest recovery, candidate filtering, batch
+   splitting, adaptive halve-and-retry) in which ANY job may run to completion, fail
+   permanently, be killed after ANY number k of its durable micro-steps while the parent lives
+   on (OKill k: before or after the manifest write, a torn upload, the complete upload, each
+   input delete, the manifest delete - followed by the adaptive retry logic), or take the whole
+   process down after any number of micro-steps (OCrash k) - one later undisturbed cycle leaves
+   exactly the rows of s0 modulo dedup, no manifest, and only readable files. *)
 Theorem C09_crash_recover :
   forall (compact : bool -> list row -> list row),
   (forall b l, rel b l (compact b l)) ->
-  forall pr cfg h elig s0,
+  forall pr cfg (h : list (bool * list outcome)) elig s0,
   NoDup (keys (files s0)) -> mans s0 = [] -> oks (files s0) ->
-  Forall (fun eo => Forall benign (snd eo)) h ->
   let s := cycle compact code_order pr cfg elig [] (lives compact pr cfg h s0) in
   rel (any_meta (files s0)) (visible s0) (visible s) /\
   mans s = [] /\ oks (files s) /\ NoDup (keys (files s)).
 Proof. exact crash_recover. Qed.
 Print Assumptions C09_crash_recover.
+
+(* The invariant behind it: in every state reachable by ANY number of interrupted jobs (each
+   started on inputs no manifest tracked) - several orphaned manifests, torn and complete
+   outputs, partially deleted inputs at once - manifest recovery alone yields a manifest-free
+   state of readable files showing the reference rows modulo dedup. *)
+Theorem C09_recover_any_pending :
+  forall (compact : bool -> list row -> list row),
+  (forall b l, rel b l (compact b l)) ->
+  forall B V s, pendV compact B V s ->
+  exists F, recover_all s = mkState F [] /\ quiet (mkState F []) /\ nometa B F /\ rel B V (vis F).
+Proof. exact pend_recover. Qed.
+Print Assumptions C09_recover_any_pending.
 
 (* Whatever the crash point of a job started between jobs, manifest recovery alone restores
    either the files as they were or the files of the completed job, and removes every manifest. *)
@@ -35,8 +48,11 @@ Theorem C09_recover_any_prefix :
   (forall b l, rel b l (compact b l)) ->
   forall s ins k, quiet s -> NoDup ins ->
   exists F, recover_all (run (firstn k (job_steps compact code_order ins s)) s) = mkState F [] /\
-            (F = files s \/ F = files_done compact s ins).
-Proof. exact recover_prefix. Qed.
+            (F = files s \/ F = files_done compact (fresh_path s) s ins).
+Proof.
+  intros compact Hc s ins k Q Hnd. rewrite job_steps_unfold.
+  exact (recover_prefix compact Hc (fresh_path s) (fresh_man s) s ins k Q (fresh_for_fresh s) Hnd).
+Qed.
 Print Assumptions C09_recover_any_prefix.
 
 (* No input file disappears before the COMPLETE output is in place: at every crash point of
@@ -70,18 +86,18 @@ Theorem C09_filter_excludes_tracked :
 Proof. exact filter_candidates_spec. Qed.
 Print Assumptions C09_filter_excludes_tracked.
 
-(* REFUTATION of the unguarded property (the excluded class: a job killed AFTER its upload
-   while the parent survives).  Four one-row files without dedup metadata; the job is killed
-   after manifest write + upload (OKill 3); compactFilesAdaptively classifies "killed" as
-   recoverable and re-compacts both halves without manifest recovery; the next cycle recovers
-   the orphaned manifest.  Three complete outputs remain and every row is visible twice. *)
-Theorem C09_adaptive_retry_refuted :
-  let s := cycle dedup_ref code_order wit_params wit_cfg true []
-             (cycle dedup_ref code_order wit_params wit_cfg true [OKill 3] wit_s0) in
-  ~ rel (any_meta (files wit_s0)) (visible wit_s0) (visible s) /\
-  length (visible s) = 8 /\ mans s = [] /\ length (files s) = 3.
-Proof. split; [exact adaptive_retry_refuted|exact wit_final_rows]. Qed.
-Print Assumptions C09_adaptive_retry_refuted.
+(* The former refutation witness (fixed by 5306c6c): four one-row files without dedup metadata,
+   the job is killed after manifest write + upload (OKill 3) while the parent lives on.  The
+   retry is skipped because the orphaned manifest tracks the batch (4 inputs + 1 output and
+   1 manifest remain); the next cycle's recovery completes the job: one file, 4 rows, once. *)
+Theorem C09_kill_after_upload_recovers :
+  let s1 := cycle dedup_ref code_order wit_params wit_cfg true [OKill 3] wit_s0 in
+  let s := cycle dedup_ref code_order wit_params wit_cfg true [] s1 in
+  length (files s1) = 5 /\ length (mans s1) = 1 /\
+  length (visible s) = 4 /\ mans s = [] /\ length (files s) = 1 /\
+  relb false (visible wit_s0) (visible s) = true.
+Proof. exact wit_final_rows. Qed.
+Print Assumptions C09_kill_after_upload_recovers.
 
 (* The executable relation used by the correspondence oracle implies the specification. *)
 Theorem C09_relb_sound : forall b l1 l2, relb b l1 l2 = true -> rel b l1 l2.
@@ -94,17 +110,16 @@ Proof. exact dedup_ref_spec. Qed.
 Print Assumptions C09_oracle_hypothesis_satisfiable.
 
 (* ... the witness state meets the hypotheses of C09_crash_recover, a history with a crash
-   after the upload (inside the guard) really recovers, and dedup really collapses rows. *)
+   after the upload really recovers, and dedup really collapses rows. *)
 Example C09_crash_recover_nonvacuous :
   NoDup (keys (files wit_s0)) /\ mans wit_s0 = [] /\
-  Forall (fun eo => Forall benign (snd eo)) [(true, [OCrash 4])] /\
   let s := cycle dedup_ref code_order wit_params wit_cfg true []
              (lives dedup_ref wit_params wit_cfg [(true, [OCrash 4])] wit_s0) in
   length (files (lives dedup_ref wit_params wit_cfg [(true, [OCrash 4])] wit_s0)) = 4 /\
   length (files s) = 1 /\ relb false (visible wit_s0) (visible s) = true.
 Proof.
   split; [repeat constructor; cbn; intuition discriminate|].
-  split; [reflexivity|]. split; [repeat constructor|]. vm_compute. auto.
+  split; [reflexivity|]. vm_compute. auto.
 Qed.
 
 Example C09_dedup_collapses :
